@@ -15,7 +15,7 @@ META = {
                    'V^T (L Psi)^T U S^-1 (non-reversible, with and without reweighting) resp. -1/2 sum_l w_l (dPsi_l U S^-1)^T a_l (dPsi_l U S^-1) (reversible) assembled by index '
                    'loops from the differentiated product terms -- every position class of the contraction chain (2 and 3 modes). amuset_hosvd end to end: the HOSVD '
                    'arguments, the reweighting of the last core, the eigen-solver argument is that reduced matrix, eigenvalues sorted descending and truncated to num_eigvals, '
-                   'all three return options. Concrete replays of amuset compare the returned eigenvalues with those of the dense projected generator matrix built from finite-difference derivatives of the product functions. Products of four and five factors; history: a second drift / diffusion evaluated with the same basis-function objects at the same point returns what fresh objects return.',
+                   'all three return options. Concrete replays of amuset compare the returned eigenvalues with those of the dense projected generator matrix built from finite-difference derivatives of the product functions. Products of four and five factors; history: a second drift / diffusion evaluated with the same basis-function objects at the same point returns what fresh objects return. An explicit all-zero drift array is still the non-reversible estimator.',
     'bounds': {'quick': 'state dimension 1-2, diffusion shapes d x d, d x (d+1), d x (d-1) for the product rule; '
                         '2-3 modes of 2 functions (monomials, sin, cos, identity), 1-2 snapshots, ranks {1,2}', 'thorough': 'dimension 3, 3 snapshots'},
     'outside': ['equality of the eigenvalues with dense gEDMD (both reduce the same operator)', 'rounding', 'threshold > 0 in the HOSVD'],
